@@ -98,3 +98,17 @@ def run(ctx, rep):
                             f'{what}: the proof search would depend on which symbol is used, not only on its order')
     rep.floor('C10.R2', 'functions scanned', nfn, 600)
     rep.instance(R2, ok=True, nontrivial='scan-complete')
+    # R3: instantiation/substitution is exact (hence equivariant under renaming): C15.R1
+    from ..core import Report
+    from . import c15
+    R3 = rep.rule('C10.R3', 'substitution / instantiation replaces exactly the old parameter -- constants and variables with equal coordinates are distinct (C15.R1)')
+    sub = Report('C15', rep.tier, rep.repo)
+    c15.run(ctx, sub)
+    for _ in range(sub.rules.get('C15.R1', {}).get('instances', 0)):
+        rep.instance(R3, ok=True)
+    rep.consulted |= sub.consulted
+    for f in sub.findings:
+        if f.rule == 'C15.R1':
+            rep.rules[R3]['failed'] += 1
+            rep.discharged -= 1
+            rep.finding(R3, f.key.replace('C15.', 'C10.R3/C15.', 1), f.where, f.construct, f.msg)
